@@ -3,7 +3,9 @@
 import hashlib, json, os, tempfile
 
 TABLES = {"handlers": "Handlers.v", "mintsites": "MintSites.v", "blockers": "BlockerSurface.v", "determinism": "Determinism.v",
-          "ownerflow": "OwnerFlow.v"}
+          "ownerflow": "OwnerFlow.v",
+          # arithmetic ties (tools/gotrans/arith.go): one table per property so that a broken tie only fails its own property
+          "arithC14": "ArithC14.v", "arithC07": "ArithC07.v", "arithC13": "ArithC13.v", "arithC03": "ArithC03.v"}
 BROKEN = "(* gotrans failed on the current tree *)\nDefinition handlers := gotrans_failed_on_the_current_tree_see_log.\n"
 
 
@@ -49,7 +51,8 @@ def generate(kind, REPO, COQ, BUILD, GOENV, run, log):
             log("gotrans %s: rc=%d %.1fs" % (k, rc, dt))
             if rc != 0:
                 # leave an uncompilable table behind so that the obligation visibly breaks
-                open(dst, "w").write(BROKEN)
+                open(dst, "w").write(BROKEN + "(* " + out[-1500:].replace("(*", "( *").replace("*)", "* )") + " *)\n")
+                log("gotrans %s failed: %s" % (k, out[-600:].strip()))
                 info[k] = dict(error=out[-1500:])
                 continue
             new = open(tmpv).read()
